@@ -1,5 +1,5 @@
 """C03 — see coq/Properties/C03.v (theorems) and lib/envcheck.py (tie + monitor)."""
-import envcheck
+import envcheck, conccheck
 from vlib import Check
 
 RUNS = {
@@ -27,7 +27,13 @@ def main(tier, seed, replay):
     ck.coq_theorems()
     n = 240 if tier == "quick" else 2400
     runs = [["-replay", replay]] if replay else RUNS[prop](seed, n)
+    if replay and "sched-" in replay:
+        conccheck.run(ck, "keycache", tier, seed, replay, only="[hierarchy]")
+        return ck.finish()
     cases = envcheck.run_harness(ck, "env", runs)
     if cases is None:
         return ck.finish()
+    # the key hierarchy under concurrency: goroutines of several partitions sharing the factory's caches (controlled schedules)
+    if not replay:
+        conccheck.run(ck, "keycache", tier, seed, None, n_quick=80, n_thorough=800, only="[hierarchy]")
     return envcheck.finish_env(ck, prop, cases, RULE)
